@@ -101,9 +101,104 @@ def run_case(kind, q):
     return msgs[:4]
 
 
+def reference_map(q):
+    """the documented correlation (mask centred on the evaluated pixel, circular frame) by a direct float64 sum over the mask's
+    non-zero pixels: independent of the FFT route, the shift and the real-transform length handling"""
+    pattern = impl.pattern_from(q["pattern"])
+    shape = tuple(q["shape"])
+    frame = np.full(shape, q["bg"], dtype=np.float64)
+    for p, a in zip(np.asarray(q["centres"]), np.asarray(q["amps"], dtype=np.float64)):
+        frame += a * masks.circular(centerX=p[1], centerY=p[0], imageSizeX=shape[1], imageSizeY=shape[0],
+                                    radius=q["pattern"]["radius"], antialiased=True)
+    if q.get("dtype"):
+        frame = (frame if q["dtype"] == "float32" else np.round(frame)).astype(q["dtype"]).astype(np.float64)
+    m = np.asarray(pattern.get_mask(sig_shape=shape), dtype=np.float64)
+    cy, cx = shape[0] // 2, shape[1] // 2
+    ref = np.zeros(shape, dtype=np.float64)
+    for my, mx in zip(*np.nonzero(m)):
+        ref += m[my, mx] * np.roll(frame, (cy - my, cx - mx), axis=(0, 1))
+    return ref
+
+
+def classify(kind, q, msgs):
+    """known finding D18: the correlation of a disk with a template that has a negative rim (RadialGradient's antialiased edge,
+    the background-subtracting templates) has positive side lobes about two radii from the disk centre; disks fainter than the
+    side lobes of a much brighter disk are outranked by them.  Keyed to the cause: in an independently computed float64
+    correlation map every returned position is a strict local maximum, the returned positions are in order of decreasing
+    reference height, every returned position that is not an expected centre lies within 2*outer radius + 2 px of a brighter
+    disk, and every expected centre that is missing is lower in the reference map than everything returned -- i.e. peak finding
+    did return the highest local maxima of the documented correlation, which are not the faint disks."""
+    if kind != "peaks" or not msgs or not all("get_peaks(k=" in m and "expected the" in m for m in msgs):
+        return None
+    shape = tuple(q["shape"])
+    pts = np.asarray(q["centres"])
+    amps = np.asarray(q["amps"], dtype=np.float64)
+    order = np.argsort(-amps)
+    pattern = impl.pattern_from(q["pattern"])
+    ref = reference_map(q)
+    frame = _frame(q)
+    outer = q["pattern"].get("radius_outer", q["pattern"]["radius"])
+    tol = 1e-9 * np.abs(ref).max()
+    # the same call history as run_case: the pattern object may have served frames of other shapes before
+    for s_ in q.get("prior_shapes", []):
+        cc.get_correlation(np.zeros(tuple(s_)), pattern)
+    cc.get_correlation(frame, pattern)
+    explained = 0
+    for k in q["ks"]:
+        got = np.asarray(cc.get_peaks(frame, pattern, k))
+        want = pts[order[:k]]
+        if got.shape == want.shape and np.array_equal(got, want):
+            continue
+        explained += 1
+        if got.shape != want.shape:
+            return None
+        hs = []
+        for (y, x) in got:
+            if not (1 <= y < shape[0] - 1 and 1 <= x < shape[1] - 1):
+                return None
+            nb = ref[y - 1:y + 2, x - 1:x + 2].copy()
+            nb[1, 1] = -np.inf
+            if not ref[y, x] > nb.max() + tol:
+                return None                      # not a local maximum of the documented correlation
+            hs.append(ref[y, x])
+        if np.any(np.diff(hs) > tol):
+            return None                          # not in order of decreasing height
+        wantset = {tuple(w) for w in want.tolist()}
+        gotset = {tuple(g) for g in got.tolist()}
+        for s_ in gotset - wantset:
+            if tuple(s_) in {tuple(c) for c in pts.tolist()}:
+                return None                      # a disk centre out of rank is not a side lobe
+            d = np.linalg.norm(pts - np.array(s_), axis=1)
+            near = np.flatnonzero(d <= 2 * outer + 2)
+            missing_amp = max(amps[i] for i, c in enumerate(pts.tolist()) if tuple(c) in wantset - gotset)
+            if len(near) == 0 or amps[near].max() < 100 * missing_amp:
+                return None
+        for c in wantset - gotset:
+            if not ref[c] < min(hs) - tol:
+                return None                      # the missing disk is higher than something returned: a genuine miss
+    # every failure reported by run_case must have been reproduced and explained here
+    return "D18" if explained == len(msgs) and explained > 0 else None
+
+
+def _frame(q):
+    shape = tuple(q["shape"])
+    frame = np.full(shape, q["bg"], dtype=np.float64)
+    for p, a in zip(np.asarray(q["centres"]), np.asarray(q["amps"], dtype=np.float64)):
+        frame += a * masks.circular(centerX=p[1], centerY=p[0], imageSizeX=shape[1], imageSizeY=shape[0],
+                                    radius=q["pattern"]["radius"], antialiased=True)
+    if q.get("dtype"):
+        frame = (frame if q["dtype"] == "float32" else np.round(frame)).astype(q["dtype"])
+    return frame
+
+
 def search(ctx, boost=1, focus=()):
     rng = np.random.default_rng(ctx.seed + 1007)
     n = (200 if ctx.tier == "thorough" else 40) * boost
+    # known finding D18, pinned: RadialGradient(3.11), a disk 2500 times brighter than its neighbour (side lobes of 0.24 %)
+    q = {"seed": 1, "pattern": {"kind": "radial_gradient", "radius": 3.11, "search": 8.22}, "shape": [57, 62],
+         "centres": [[11, 26], [38, 32]], "amps": [2500.0, 1.0], "bg": 3.0, "ks": [1, 2]}
+    msgs_ = run_case("peaks", q)
+    ctx.oracle_case("peaks", q, msgs_, key=classify("peaks", q, msgs_) if msgs_ else None, nontrivial=True)
     for k in range(n):
         pat = impl.pattern_params(rng, kinds=("circular", "radial_gradient", "background_subtraction", "rgbs"),
                                   rmin=3.0, rmax=7.0)
@@ -157,7 +252,9 @@ def search(ctx, boost=1, focus=()):
         elif k % 3 == 2:  # earlier, larger frame
             q["prior_shapes"] = [[shape[0] + 2 * int(rng.integers(1, 5)) + int(rng.integers(0, 2)),
                                   shape[1] + 2 * int(rng.integers(1, 5)) + int(rng.integers(0, 2))]]
-        ctx.oracle_case("peaks", q, run_case("peaks", q), nontrivial=(shape[0] % 2 == 1 or shape[1] % 2 == 1))
+        msgs_ = run_case("peaks", q)
+        ctx.oracle_case("peaks", q, msgs_, key=classify("peaks", q, msgs_) if msgs_ else None,
+                        nontrivial=(shape[0] % 2 == 1 or shape[1] % 2 == 1))
         ctx.count("pattern_" + pat["kind"])
 
 
